@@ -63,6 +63,21 @@ def cases(draw):
         ]
     g = gg.Gen(r, _profile(cfg))
     main = g.template()
+    if r.random() < 0.12:
+        # binding family: partial tags whose bound variable, alias and keyword arguments draw on three names,
+        # in front of partials that print exactly those names and the name the partial itself is bound to
+        pool = r.sample(gg.NAMES, 3)
+        out = lambda nm: {"k": "out", "e": {"k": "filt", "left": {"k": "path", "segs": [{"s": nm}]}, "filters": []}, "ws": None}  # noqa: E731
+        for name in PARTIAL_NAMES:
+            stem = name.split("/")[-1].split(".")[0]
+            parts[name] = [x for nm in pool + [stem] for x in (out(nm), {"k": "text", "v": "|"})] + parts[name][:1]
+        tags = []
+        for _ in range(r.randint(1, 3)):
+            t = g._partial(r.choice(["include", "include", "render"]))
+            t["?bind"] = {"kw": r.choice(["with", "for"]), "e": {"k": "path", "segs": [{"s": r.choice(pool)}]}, "?as": r.choice(pool + [None, None])}
+            t["args"] = [{"kw": k, "v": g.argp() if r.random() < 0.6 else {"k": "path", "segs": [{"s": r.choice(pool)}]}} for k in r.sample(pool, r.randint(1, 2))]
+            tags.append(t)
+        main = tags + main[:1]
     if "base" in parts and r.random() < 0.8:
         sup = {"k": "out", "e": {"k": "filt", "left": {"k": "path", "segs": [{"s": "block"}, {"s": "super"}]}, "filters": []}, "ws": None}
         main = [{"k": "extends", "name": "base"}, {"k": "block", "name": "c", "body": [sup] + g.block(1)}] + main[:1]
